@@ -16,11 +16,21 @@ import oracle
 MODE = "full"
 
 
-def tree_failures(P, grammar, s, i, rules=None):
+def tree_failures(P, grammar, s, i, rules=None, decoy=None):
     """Check every tree offered by lparse and the tree of parse on the real code (on the given, possibly
-    warm, rule objects; a fresh build otherwise)."""
+    warm, rule objects; a fresh build otherwise - then, if a decoy grammar of the same rule names is given, it is
+    built too and asked first, as in the correspondence run)."""
     if rules is None:
-        cls, rules = G.build(P, [tuple(r) for r in grammar])
+        rules, drule = ec.build_with_decoy(P, grammar, decoy)
+        if drule is not None:
+            try:
+                list(drule.lparse(s, i))
+            except Exception:  # noqa
+                pass
+            try:
+                drule.parse(s, i)
+            except Exception:  # noqa
+                pass
     bad = []
     try:
         ms = list(rules[0].lparse(s, i))
@@ -55,7 +65,7 @@ def run(ctx):
         if rep >= 3:
             break
         s = "".join(chr(c) for c in d["source"])
-        bad = tree_failures(P, d["grammar"], s, d["offset"])
+        bad = tree_failures(P, d["grammar"], s, d["offset"]) or tree_failures(P, d["grammar"], s, d["offset"], decoy=d.get("decoy"))
         if bad:
             found = True
             rep += 1
@@ -95,6 +105,6 @@ def run(ctx):
 def replay(rp):
     P = lib.import_repo()
     s = "".join(chr(c) for c in rp["source"])
-    bad = tree_failures(P, rp["grammar"], s, rp["offset"])
+    bad = tree_failures(P, rp["grammar"], s, rp["offset"]) or tree_failures(P, rp["grammar"], s, rp["offset"], decoy=rp.get("decoy"))
     print("tree failures now:", bad)
     return 1 if bad else 0
